@@ -28,7 +28,9 @@ Side conditions (each shown necessary by a counterexample below):
   the operator has a complement (`negOp`: the `not_…` forms, `!=`, `is_null`; `<` and `>=` are both
   false on null);
 * renaming: the renaming function is injective;
-* `reorder_siblings`: see there.
+* `reorder_siblings_props` / `reorder_siblings_edges`: the swapped selections define different tag
+  and output names (true of every valid query), two swapped edges have no tag dependency, and the
+  position is not inside a fold (there the order of the folded elements is observable).
 -/
 import TrustfallModel.Proofs.SpecMeta
 
@@ -196,6 +198,163 @@ theorem rename_tags (σ : Name → Name) (hσ : Function.Injective σ) (env : Sp
     rows env (renameTags σ q) = rows env q :=
   rows_renameTags hσ env q
 
+
+/-! ### reordering sibling selections changes no row contents -/
+
+/-- Swapping a property selection with an adjacent selection (a property whose `@tag`/`@output` names
+differ from its own — `swapPropsOK`, true of every valid query — or an edge) leaves the rows where they
+are, each with the same `(name, value)` pairs: the rows are sorted by output name, so with distinct
+output names they are literally equal.  (Not inside a fold for this proof; the harness also swaps
+inside folds.) -/
+theorem reorder_siblings_props (env : SpecEnv) (q : Query) (p : Path) (j : Nat) (f g : QField)
+    (hp : NoFoldPath p q.root) (hf : fieldAt p j q.root = some f)
+    (hg : fieldAt p (j + 1) q.root = some g) (hok : swapPropsOK f g = true)
+    (rs rs' : List Row) (h : rows env q = .ok rs) (h' : rows env (swapSiblings p j q) = .ok rs') :
+    Forall₂ (fun r' r => r'.Perm r) rs' rs :=
+  rows_swapProps env q p j f g hp hf hg hok rs rs' h h'
+
+/-- Swapping two adjacent edge selections with no tag dependency between them (`swapEdgesOK`: neither
+reads a tag the other defines, and the tag and output names they define are different) permutes the
+rows: the swapped query's rows are a permutation of rows that agree, one by one and up to the order
+of the `(name, value)` pairs, with the original rows.  Outside folds (inside a fold the order of the
+folded elements is observable). -/
+theorem reorder_siblings_edges (env : SpecEnv) (q : Query) (p : Path) (j : Nat) (E1 E2 : QField)
+    (hp : NoFoldPath p q.root) (hf : fieldAt p j q.root = some E1)
+    (hg : fieldAt p (j + 1) q.root = some E2) (hok : swapEdgesOK E1 E2 = true)
+    (rs rs' : List Row) (h : rows env q = .ok rs) (h' : rows env (swapSiblings p j q) = .ok rs') :
+    ∃ rs'', rs'.Perm rs'' ∧ Forall₂ (fun r' r => r'.Perm r) rs'' rs :=
+  rows_swapEdges env q p j E1 E2 hp hf hg hok rs rs' h h'
+
+/-- In particular the number of rows does not change. -/
+theorem reorder_siblings_edges_length (env : SpecEnv) (q : Query) (p : Path) (j : Nat) (E1 E2 : QField)
+    (hp : NoFoldPath p q.root) (hf : fieldAt p j q.root = some E1)
+    (hg : fieldAt p (j + 1) q.root = some E2) (hok : swapEdgesOK E1 E2 = true)
+    (rs rs' : List Row) (h : rows env q = .ok rs) (h' : rows env (swapSiblings p j q) = .ok rs') :
+    rs'.length = rs.length := by
+  obtain ⟨rs'', h1, h2⟩ := reorder_siblings_edges env q p j E1 E2 hp hf hg hok rs rs' h h'
+  rw [h1.length_eq, h2.length_eq]
+
+/-- The two facts the commutation rests on: evaluation only extends an assignment, by extensions that
+depend on it through the tags the subtree reads (`evalNode_frame`), and it does not care about the
+order in which tags and outputs were appended (`evalNode_resp`). -/
+theorem frame_property (env : SpecEnv) (fuel : Nat) (n : QNode) (v : Option VertexId) (a b : Asg)
+    (h : ∀ t ∈ tagUses n, a.tag? t = b.tag? t) (La Lb : List Asg)
+    (ha : evalNode env fuel n v a = .ok La) (hb : evalNode env fuel n v b = .ok Lb) :
+    ∃ Δ : List Asg, La = Δ.map (ext a) ∧ Lb = Δ.map (ext b) := by
+  obtain ⟨Δ, h1, h2, _⟩ := evalNode_frame env fuel n v a b h La Lb ha hb
+  exact ⟨Δ, h1, h2⟩
+
+/-! ### the side conditions are necessary; the statements are not vacuous
+
+One small world: vertices `0, 1, 2` of type `A` with `x = 1, 1, 2`; edges `0 -e-> 1, 2`, `0 -f-> 1`,
+`1 -e-> 2`, no `g` edge; starting vertex `0`; arguments `one = 1`, `ones = [1]`. -/
+
+namespace Example
+def D : Data := Data.mk
+  [⟨0, "A", [("x", .int64 1)]⟩, ⟨1, "A", [("x", .int64 1)]⟩, ⟨2, "A", [("x", .int64 2)]⟩]
+  [⟨0, "e", [], [1, 2]⟩, ⟨0, "f", [], [1]⟩, ⟨1, "e", [], [2]⟩] [⟨"R", [], [0]⟩] [] [("A", [])]
+def env : SpecEnv := ⟨D, [("one", .int64 1), ("ones", .list [.int64 1])], []⟩
+def out (nm o : Name) : QField := .prop nm [.output o]
+/-- `{ R { e @fold @transform(op: "count") @filter(op: "=", value: ["$one"]) { x @output(name: "o") } } }` -/
+def qFoldCount : Query := ⟨"R", [], .mk none
+  [.edge "e" [] (.fold [.countFilter (.bin .equals) (.var "one")]) (.mk none [out "x" "o"])]⟩
+/-- `{ R { g @optional { x @output(name: "o") } } }` -/
+def qOpt : Query := ⟨"R", [], .mk none [.edge "g" [] .optional (.mk none [out "x" "o"])]⟩
+/-- `{ R { g @optional { x @tag(name: "t") } f { x @output(name: "o") } } }` -/
+def qOptTag : Query := ⟨"R", [], .mk none
+  [.edge "g" [] .optional (.mk none [.prop "x" [.tag "t"]]), .edge "f" [] .plain (.mk none [out "x" "o"])]⟩
+/-- `{ R { e { x @output(name: "o") } } }` -/
+def qPlain : Query := ⟨"R", [], .mk none [.edge "e" [] .plain (.mk none [out "x" "o"])]⟩
+/-- `{ R { e @recurse(depth: 1) { x @output(name: "o") } } }` -/
+def qRec : Query := ⟨"R", [], .mk none [.edge "e" [] (.recurse 1) (.mk none [out "x" "o"])]⟩
+/-- `{ R { f @fold { e @recurse(depth: 0) { x @output(name: "o") } } } }` -/
+def qRecFold : Query := ⟨"R", [], .mk none
+  [.edge "f" [] (.fold []) (.mk none [.edge "e" [] (.recurse 0) (.mk none [out "x" "o"])])]⟩
+
+/-- Evaluate `Spec.rows` on a concrete query by unfolding. -/
+macro "spec_eval" : tactic => `(tactic|
+  simp (config := { decide := true }) [BEq.beq, rows, sizeBound, flatMapR, evalNode_succ, evalFields_edge, evalFields_nil, evalFields_prop,
+    evalEdge_fold, evalEdge_plain, evalEdge_optional, evalEdge_recurse, reachDecl, reach,
+    coercionOk, afterFilters, bindProps, propFiltersHold, filtersHold, ownersOf, edgeNbrs,
+    completeParams, declParams, Data.start, Data.nbrsOpt, Data.nbrs, paramsEq, Data.supers,
+    Data.typeOf, Data.vertex?, Data.propOpt, Data.prop, Data.isA, foldFinish, foldOk, foldMissing,
+    countOf, tagStep, missStep, lookupOut, List.filterMap_cons, outNames, outNamesFields, filterHolds,
+    Filter.applyStatic, Filter.applyTagged, Filter.equalsOp, Filter.notOp, Filter.oneOf,
+    Filter.oneOfLoop, Outcome.map, R.ofOutcome, Filter.equals, Value.disc, Value.beq, insertSorted,
+    Asg.tag?, addFilter, onQuery, modNode, modField, addFilterF, setRecurseDepth, setDepthF,
+    makeOptional, makeOptionalF, replaceEqByOneOf, modDirF, eqToOneOfD, onChild])
+
+/-- Inside a fold a filter can even *add* a row: the count filter `= 1` fails on two elements and
+holds once the inner filter has removed one of them.  (`add_filter_sub` needs `NoFoldPath`.) -/
+theorem add_filter_in_fold_adds_row :
+    rows env qFoldCount = .ok [] ∧
+      rows env (addFilter [0] 0 1 (.bin .equals) (.var "one") qFoldCount) = .ok [[("o", .list [.int64 1])]] ∧
+      ¬ NoFoldPath [0] qFoldCount.root := by
+  refine ⟨?_, ?_, by decide⟩ <;> (simp only [env, D, qFoldCount, out]; spec_eval)
+
+/-- Inside a missing optional scope `f` and `¬f` both pass: the one row of `q` is a row of `q + f` and
+of `q + ¬f`.  (`filter_partition` needs `StrictPath`.) -/
+theorem partition_fails_in_optional_scope :
+    rows env qOpt = .ok [[("o", .null)]] ∧
+      rows env (addFilter [0] 0 1 (.bin .equals) (.var "one") qOpt) = .ok [[("o", .null)]] ∧
+      rows env (addFilter [0] 0 1 (.bin .notEquals) (.var "one") qOpt) = .ok [[("o", .null)]] ∧
+      NoFoldPath [0] qOpt.root ∧ ¬ StrictPath [0] qOpt.root := by
+  refine ⟨?_, ?_, ?_, by decide, by decide⟩ <;> (simp only [env, D, qOpt, out]; spec_eval)
+
+/-- A tag from a missing optional scope makes `= %t` and `!= %t` both pass, even at a position that
+exists in every row.  (`filter_partition` needs an operand that is not a tag.) -/
+theorem partition_fails_with_tag_from_optional_scope :
+    rows env qOptTag = .ok [[("o", .int64 1)]] ∧
+      rows env (addFilter [1] 0 1 (.bin .equals) (.tag "t") qOptTag) = .ok [[("o", .int64 1)]] ∧
+      rows env (addFilter [1] 0 1 (.bin .notEquals) (.tag "t") qOptTag) = .ok [[("o", .int64 1)]] ∧
+      StrictPath [1] qOptTag.root := by
+  refine ⟨?_, ?_, ?_, by decide⟩ <;> (simp only [env, D, qOptTag, out]; spec_eval)
+
+/-- Below a fold, raising a recursion depth changes the folded list, so the old row is gone.
+(`recurse_mono` needs `NoFoldPath`.) -/
+theorem recurse_in_fold_changes_row :
+    rows env qRecFold = .ok [[("o", .list [.int64 1])]] ∧
+      rows env (setRecurseDepth [0] 0 1 qRecFold) = .ok [[("o", .list [.int64 1, .int64 2])]] ∧
+      ¬ NoFoldPath [0] qRecFold.root := by
+  refine ⟨?_, ?_, by decide⟩ <;> (simp only [env, D, qRecFold, out]; spec_eval)
+
+/-- Non-vacuity of `add_filter_sub` / `filter_partition`: a strict partition of two rows. -/
+theorem partition_example :
+    rows env qPlain = .ok [[("o", .int64 1)], [("o", .int64 2)]] ∧
+      rows env (addFilter [0] 0 0 (.bin .equals) (.var "one") qPlain) = .ok [[("o", .int64 1)]] ∧
+      rows env (addFilter [0] 0 0 (.bin .notEquals) (.var "one") qPlain) = .ok [[("o", .int64 2)]] ∧
+      StrictPath [0] qPlain.root ∧ fieldAt [0] 0 qPlain.root = some (out "x" "o") := by
+  refine ⟨?_, ?_, ?_, by decide, rfl⟩ <;> (simp only [env, D, qPlain, out]; spec_eval)
+
+example : Interleave [[("o", Value.int64 1)]] [[("o", Value.int64 2)]]
+    [[("o", Value.int64 1)], [("o", Value.int64 2)]] :=
+  filter_partition env qPlain [0] 0 0 (.bin .equals) (.bin .notEquals) (.var "one") rfl rfl (by decide)
+    "x" [.output "o"] rfl _ _ _ partition_example.1 partition_example.2.1 partition_example.2.2.1
+
+/-- Non-vacuity of `recurse_mono`: depth 1 → 2 adds a row in the middle. -/
+theorem recurse_example :
+    rows env qRec = .ok [[("o", .int64 1)], [("o", .int64 1)], [("o", .int64 2)]] ∧
+      rows env (setRecurseDepth [] 0 2 qRec) =
+        .ok [[("o", .int64 1)], [("o", .int64 1)], [("o", .int64 2)], [("o", .int64 2)]] ∧
+      kindAt [] 0 qRec.root = some (.recurse 1) := by
+  refine ⟨?_, ?_, rfl⟩ <;> (simp only [env, D, qRec, out]; spec_eval)
+
+/-- Non-vacuity of `optional_keeps` (here nothing is added: vertex 0 has `e`-neighbours). -/
+theorem optional_example :
+    rows env (makeOptional [] 0 qPlain) = .ok [[("o", .int64 1)], [("o", .int64 2)]] := by
+  simp only [env, D, qPlain, out]; spec_eval
+
+/-- Non-vacuity of `eq_oneof_singleton`. -/
+theorem eq_oneof_example :
+    dirAt [0] 0 0 (addFilter [0] 0 0 (.bin .equals) (.var "one") qPlain).root =
+        some (.filter (.bin .equals) (.var "one")) ∧
+      rows env (replaceEqByOneOf [0] 0 0 "ones" (addFilter [0] 0 0 (.bin .equals) (.var "one") qPlain)) =
+        .ok [[("o", .int64 1)]] := by
+  refine ⟨rfl, ?_⟩
+  simp only [env, D, qPlain, out]; spec_eval
+
+end Example
+
 end TF.C23
 
 #print axioms TF.C23.add_filter_sub
@@ -213,3 +372,15 @@ end TF.C23
 #print axioms TF.C23.rename_outputs
 #print axioms TF.C23.rename_outputs_exact
 #print axioms TF.C23.rename_tags
+#print axioms TF.C23.reorder_siblings_props
+#print axioms TF.C23.reorder_siblings_edges
+#print axioms TF.C23.reorder_siblings_edges_length
+#print axioms TF.C23.frame_property
+#print axioms TF.C23.Example.add_filter_in_fold_adds_row
+#print axioms TF.C23.Example.partition_fails_in_optional_scope
+#print axioms TF.C23.Example.partition_fails_with_tag_from_optional_scope
+#print axioms TF.C23.Example.recurse_in_fold_changes_row
+#print axioms TF.C23.Example.partition_example
+#print axioms TF.C23.Example.recurse_example
+#print axioms TF.C23.Example.optional_example
+#print axioms TF.C23.Example.eq_oneof_example
